@@ -68,6 +68,8 @@ unsigned long long h5m_file_mutations(const char *name) {      // a fingerprint 
 }
 int h5m_file_is_open(const char *) { return H5Fget_obj_count((hid_t)H5F_OBJ_ALL, H5F_OBJ_FILE) > 0; }
 int h5m_open_ids(const char *, int include_file_ids) { return (int)H5Fget_obj_count((hid_t)H5F_OBJ_ALL, include_file_ids ? H5F_OBJ_ALL : (H5F_OBJ_ALL & ~H5F_OBJ_FILE)); }
+long long h5m_file_size(const char *name) { struct stat st; return stat(name, &st) == 0 ? (long long)st.st_size : -1; }
+void h5m_make_raw_file(const char *name, long long size) { FILE *f = fopen(name, "wb"); if (f) { for (long long i = 0; i < size; i++) fputc('x', f); fclose(f); } }
 void h5m_make_plain_file(const char *name) { hid_t f = H5Fcreate(name, H5F_ACC_TRUNC, H5P_DEFAULT, H5P_DEFAULT); if (f >= 0) H5Fclose(f); }
 }
 
